@@ -576,6 +576,7 @@ def main(ctx):
     run_emit_oracles(ctx, model, hists, results, oracle_cases, oracle_meta)
     cookie_checks(ctx, model, falcon, 3000 if quick else 30000)
     cookie_order_checks(ctx, model, falcon, 300 if quick else 3000)
+    cookie_echo_checks(ctx, falcon, 1500 if quick else 15000)
     uri_checks(ctx, model, falcon, 6000 if quick else 60000)
     e2e(ctx, model, falcon, 150 if quick else 1500)
     report_disagreements(ctx)
@@ -716,6 +717,85 @@ def cookie_checks(ctx, model, falcon, n):
                                'cookie_header': hdr, 'asgi': asgi, 'read_back': repr(got)},
                               key='cookie-echo')
     ctx.sample({'cookie_line': meta[0][3]} if meta else {})
+
+
+# --------------------------------------------------------------------------- cookie value echo (systematic)
+
+def systematic_cookie_values(rng, n_random):
+    """Cookie values built systematically from the characters http.cookies quotes or escapes (and the ones
+    an unquoter can mistake for escapes): backslash, double quote, comma, semicolon, space, controls, DEL,
+    and in particular a backslash followed by 1-3 digits (octal-looking or not), doubled backslashes before
+    digits, and quoted-looking values."""
+    import itertools
+    vals = ['C:\\backup\\2024\\101', '\\177', '\\012', '\\377', '\\400', '\\000', '\\101', '2\\101', '"\\101"', '\\"',
+            '\\\\101', '\\\\\\101', 'a\\', '\\', '\\\\', '"', '""', '"a"', '"a', 'a"', '\\"a\\"', 'a b', ' a', 'a ', 'a,b',
+            'a;b', 'a=b', 'k=v; x=y', '%5C101', '\\x41', '\\u0041', '\\8', '\\89', '\\789', '\\0', '\\00', '\\0000',
+            'é', 'a\xa0b', '€', '\U0001f600',      # not ASCII-encodable: set_cookie raises ValueError (counted, not echoed)
+            '\\1010', '0\\1', 'a\\134b', '\\134101', '"\\134"', 'a\\\\"b', '\\"\\101\\"', "'\\101'"]
+    vals += [chr(c) for c in range(0x80)]
+    spec = ['\\', '"', ',', ';', ' ', '0', '1', '3', '7', '8', '9', 'a', '\x00', '\x1f', '\x7f', '\t', '=', '%']
+    vals += [a + b for a in spec for b in spec]
+    for ln in (1, 2, 3):
+        for d in itertools.product('0123456789', repeat=ln):
+            vals.append('\\' + ''.join(d))
+    for d in itertools.product('0134789', repeat=3):
+        ds = ''.join(d)
+        vals.append('\\\\' + ds)
+        vals.append('x\\' + ds + 'y')
+    for d in itertools.product('0137', repeat=3):
+        vals.append('"\\' + ''.join(d) + '"')
+        vals.append(''.join(d) + '\\' + ''.join(d) + '\\' + ''.join(d))
+    for _ in range(n_random):
+        vals.append(''.join(rng.choice(spec) for _ in range(rng.randint(3, 9))))
+    seen, out = set(), []
+    for v in vals:
+        if v not in seen:
+            seen.add(v)
+            out.append(v)
+    return out
+
+
+def cookie_echo_checks(ctx, falcon, n_random):
+    """Binding clause 'echoed back in a Cookie header, is read by the request API as the same name and
+    value': set_cookie(name, value) on a real Response -> the emitted Set-Cookie line -> its name=value
+    pair placed in a Cookie header (alone and between two other cookies) -> req.cookies /
+    req.get_cookie_values on WSGI and ASGI requests.  http.cookies' quoting is the stdlib's (oracle); what
+    is judged is falcon's read side against the value that was written."""
+    import falcon.asgi
+    from falcon import testing
+    rng = ctx.rng
+    vals = systematic_cookie_values(rng, n_random)
+    names = ['c', 'sid', 'tok_1', "!#$%&'*+-.^_`|~"]
+    for vi, value in enumerate(vals):
+        name = names[vi % len(names)] if vi % 7 == 0 else 'c'
+        asgi_resp = vi % 2 == 1
+        resp = (falcon.asgi.Response if asgi_resp else falcon.Response)()
+        try:
+            resp.set_cookie(name, value)
+        except ValueError:
+            ctx.count('cookie-echo-value-rejected')
+            continue
+        raw = resp._asgi_headers() if asgi_resp else resp._wsgi_headers()
+        lines = [(v.decode('latin-1') if isinstance(v, bytes) else v) for k, v in raw
+                 if (k.decode('latin-1') if isinstance(k, bytes) else k).lower() == 'set-cookie']
+        pname, coded, _ = parse_cookie_line(lines[0])
+        pair = '%s=%s' % (pname, coded)
+        for shape, hdr in (('alone', pair), ('between', 'x=1; %s; y="q"' % pair)):
+            for kind in ('wsgi', 'asgi'):
+                try:
+                    req = (testing.create_asgi_req if kind == 'asgi' else testing.create_req)(headers={'Cookie': hdr})
+                    got = (req.cookies.get(name), req.get_cookie_values(name))
+                except Exception as e:  # noqa: BLE001
+                    got = repr(e)
+                ctx.count('cookie-echo-systematic')
+                ctx.note_case(('cookie-echo', value, shape, kind), '\\' in value or '"' in value)
+                if got != (value, [value]):
+                    ctx.violation('cookie-echo-differs',
+                                  {'what': 'a cookie written by set_cookie and echoed in a Cookie header is read back '
+                                           'differently by the request API', 'name': name, 'value': value,
+                                   'value_codepoints': [ord(c) for c in value], 'set_cookie_line': lines[0],
+                                   'cookie_header': hdr, 'interface': kind, 'read_back': repr(got)},
+                                  key='cookie-echo-sys')
 
 
 import re  # noqa: E402
